@@ -40,3 +40,14 @@ class Node(Command):
                 parts.append((slot, _val(self.result_name, kw[slot])))
         LOG.append(("exit", self.result_name))
         return (self.result_name, tuple(parts))
+
+
+class Quiet(Node):
+    """a side-effect-only command: reads its inputs like Node, declares no output and returns nothing (None)"""
+
+    inputs = dict(Node.inputs)  # (declarations are per class, not inherited)
+    output = None
+
+    def execute(self, **kw):
+        Node.execute(self, **kw)
+        return None
